@@ -197,9 +197,13 @@ class C19(Check):
         res.exhaustive = False
         res.rule = ("every canned program (one per statement form / operator / left-hand-side shape incl. assignments through missing keys and through "
                     "references / unsafe native as callback of every higher-order native / exfiltration attempt) at four call sites (GetFilterTargets with a "
-                    "filter for a user without and WITH a permission filter, EventQueue::ProcessEvent, ConsoleHandler::ExecuteScriptHelper sandboxed); "
+                    "filter (+ filter_vars bound to live shared values) for a user without and WITH a permission filter, EventQueue::SetFilter/ProcessEvent, and BOTH "
+                    "console endpoints sandboxed: ConsoleHandler::ExecuteScriptHelper and AutocompleteScriptHelper (word = program + '.x')); "
                     "seeded nested programs combining the statement forms; every no_user_view field of every instantiable type (markers planted) read as "
-                    "obj.f, obj[\"f\"], *(&obj.f), (&obj.f).get(), via get_object at every site, plus whole-object serialisers; every function and "
+                    "obj.f, obj[\"f\"], *(&obj.f), (&obj.f).get(), bare identifier after `using obj`, for-in, via get_object/get_objects/filter_vars at every site, "
+                    "plus whole-object serialisers; every whitelisted function/prototype method with a live UNSORTED shared container (object attribute, "
+                    "list/dict nested in vars, global, frozen array) in every argument position and as receiver, 1-3 arguments (order-sensitive snapshot, "
+                    "live state restored after a detected change); every function and "
                     "prototype method reachable from the global namespace (reflection at run time) called with its declared arity from a pool of live "
                     "objects/shared containers/namespaces/functions plus seeded random tuples. Programs run in forked children under a per-program alarm "
                     "(death/hang => X line => SPECFAIL no_crash/no_hang). evaluations = sandboxed evaluations, each followed by a deep "
@@ -213,6 +217,8 @@ class C19(Check):
                                           "natives_safe": sum(1 for _, v in self.tables["natives"] if v),
                                           "callCheck": self.tables["callCheck"], "fieldCheck": self.tables["fieldCheck"],
                                           "initDictOff": self.tables["initDictOff"], "refGetSandboxed": self.tables["refGetSandboxed"],
+                                          "importReadSandboxed": self.tables["importReadSandboxed"],
+                                          "assignments_to_Sandboxed_in_lib": self.tables["sandboxedAssignments"],
                                           "extractor": self.tables["method"], "ast_vs_token_level_disagreements": self.tables["ast_text_disagree"]},
                      "translator_selftest": getattr(self, "translator_selftest", {})} if hasattr(self, "tables") else {}
 
